@@ -723,9 +723,12 @@ myth_thread_t myth_wsapi_runqueue_take(int victim,
 #endif
   //Increment base
   b=q->base;
+  MYTH_VERIF_POINT(MVP_WSAPI_TAKE_A);
   q->base=b+1;
+  MYTH_VERIF_POINT(MVP_WSAPI_TAKE_B);
   myth_wsqueue_rwbarrier();
   top=q->top;
+  MYTH_VERIF_POINT(MVP_WSAPI_TAKE_C);
   if (b<top){
     ret=q->ptr[b];
     if ((!decidefn) || decidefn(ret,udata)){
@@ -750,6 +753,7 @@ myth_thread_t myth_wsapi_runqueue_take(int victim,
     }
     myth_wsqueue_wbarrier();
   }
+  MYTH_VERIF_POINT(MVP_WSAPI_TAKE_DECL);
   q->base=b;
   myth_wsqueue_lock_unlock(&q->lock);
 #if USE_LOCK || USE_LOCK_TAKE
@@ -776,7 +780,10 @@ myth_thread_t myth_wsapi_runqueue_peek(int victim,void *ptr,size_t *psize) {
     //Update cache
     //Acquire lock
 #if 1
-    if (!myth_wsqueue_lock_trylock(&q->lock))goto start;
+    if (!myth_wsqueue_lock_trylock(&q->lock)) {
+      MYTH_VERIF_SPIN(MVS_WSAPI_PEEK);
+      goto start;
+    }
 #else
     myth_wsqueue_lock_lock(&q->lock);
 #endif
